@@ -138,6 +138,9 @@ def write_xlsx(model, path=None) -> str:
             if v is None:
                 continue
             ws[addr] = dec(v)
+        if sh.get('dimension'):
+            # a stale / understated <dimension> record (other writers leave such records behind): readers must not trust it
+            ws.calculate_dimension = (lambda d: (lambda *a, **k: d))(sh['dimension'])
     wb.save(path)
     return path
 
@@ -154,13 +157,22 @@ def translate_path(path, entry=None, safety=False) -> str:
     return parser_for(path, entry, safety).get_translation()
 
 
+MAX_SOURCE = int(os.environ.get('VF_MAX_SOURCE', str(12_000_000)))
+
+
 def load_source(src: str):
+    # compile() of a text of tens of megabytes runs for minutes inside one C call that no alarm can interrupt: such a text
+    # is handled like a timeout (inconclusive), the properties that care about sizes judge them on their own
+    if len(src) > MAX_SOURCE:
+        raise Timeout()
     ns = {}
     exec(compile(src, '<excel2pycl-generated>', 'exec'), ns)
     return ns['ExcelInPython']
 
 
 def load_file(src: str):
+    if len(src) > MAX_SOURCE:
+        raise Timeout()
     path = new_path('.py')
     with open(path, 'w', encoding='utf-8') as f:
         f.write(src)
